@@ -718,6 +718,7 @@ def replace(eq: str, term: str, replacement: str, rhs_only: tp.Optional[bool] = 
     eq_new = ""
     idx = eq.find(term)
     passed_assign = False  # whether the part of the equation consumed so far contains the `=` sign
+    last_char = ""  # last character of the part of the equation consumed so far
 
     # go through all appearances of term in eq
     while idx != -1:
@@ -727,9 +728,10 @@ def replace(eq: str, term: str, replacement: str, rhs_only: tp.Optional[bool] = 
 
         # if it is an allowed sign, replace term, else not
         replaced = False
-        if ((idx_follow_op < len(eq) and eq[idx_follow_op] in allowed_follow_ops) and
-           (idx == 0 or eq[idx-1] in allowed_follow_ops)) or \
-                (idx_follow_op == len(eq) and eq[idx-1] in allowed_follow_ops):
+        # (the character in front of the term may belong to the part of the equation that was consumed already)
+        prev_char = eq[idx-1] if idx > 0 else last_char
+        if (idx_follow_op == len(eq) or eq[idx_follow_op] in allowed_follow_ops) and \
+                (prev_char == "" or prev_char in allowed_follow_ops):
             eq_part = eq[:idx]
             on_rhs = passed_assign or "=" in eq_part
             if (rhs_only and on_rhs) or (lhs_only and not on_rhs) or (not rhs_only and not lhs_only):
@@ -740,6 +742,7 @@ def replace(eq: str, term: str, replacement: str, rhs_only: tp.Optional[bool] = 
 
         # jump to next appearance of term in eq
         passed_assign = passed_assign or "=" in eq[:idx_follow_op]
+        last_char = eq[idx_follow_op-1]
         eq = eq[idx_follow_op:]
         idx = eq.find(term)
 
